@@ -730,6 +730,30 @@ class IArr:
             return IArr.from_fn(self.vshape[:-1], fn)
         raise OutOfReach("np.sum axis")
 
+    def _np_max(self, args, **kw):
+        if self.quat or self.cplx:
+            raise OutOfReach("max of a non-real array")
+        if all(isinstance(d, int) for d in self.vshape):
+            vals = [v for _, v in self.concrete_entries()]
+            if not vals:
+                raise Raised("ValueError", "max of an empty array")
+            return sym.smax(*vals)
+        if len(self.vshape) != 1:
+            raise OutOfReach("max over a symbolic multi-dimensional array")
+        # maximum of a vector of symbolic length: M >= every entry (instantiated at 0) and M is attained
+        c = cur()
+        n = self.vshape[0]
+        if c.valid(n >= 1) is not True:
+            raise OutOfReach("max of a possibly empty array")
+        M = SReal.var(c.fresh_name("max"))
+        iw = SInt.var(c.fresh_name("argmax"))
+        c.assume(sand(iw >= 0, iw < n))
+        c.assume(M == self.at(iw))
+        c.assume(M >= self.at(0))
+        if getattr(self, "sorted_desc", False):
+            c.assume(self.at(0) >= self.at(iw))     # fact of the producer's contract, instantiated
+        return M
+
     def __repr__(self):
         return f"IArr(shape={self.vshape}, quat={self.quat})"
 
